@@ -71,7 +71,7 @@ func runC02(r *ev.Run) {
 	r.Rule = "case = (kind in flat/hnsw/ivf/pq/ivfpq, metric, construction parameters, generated Add/Remove/Flush history over distinct ids); after every op queries are answered completely " +
 		"(checked against the kind's definition: live ids of the searched clusters, true distance or ADC recomputed from codebooks read via the verif accessors) and restricted (k/threshold/id restriction, exact vs the complete listing), " +
 		"plus node-id == stored-vector search, unknown/removed node id => error, multi-query == rule(single answers), flush-invariance of exhaustive kinds; " +
-		"non-trivial = history has a removal and a flush and a non-empty answer; distinct by (kind, params, history digest)"
+		"non-trivial = history has a removal and a flush and a non-empty answer; distinct by (kind, params, history digest) Since the seed waves: as C01 (large indexes, update histories, rejected adds, empty-index prelude, double Flush, held and re-executed search objects, WithCutoff, exact-nlist training, training buffers overwritten after Train, Train twice)."
 	r.Assumptions = []string{"PQ/IVFPQ expected scores are recomputed in float64 from the codebooks/centroids/codes the index itself holds (read-only accessors)",
 		"IVF probe set: all legal choices among bit-equal centroid-distance ties are accepted", "HNSW: soundness clauses only here (exactness/reachability are C12)"}
 	n := r.Pick(200, 5000)
